@@ -21,6 +21,7 @@ Inductive errclass :=
 | EOption       (* malformed option *)
 | EDevice       (* device / provider failure *)
 | EPckExt       (* PCK extension *)
+| EReplay       (* event log replay does not reproduce a register *)
 | EOther.
 
 Definition errclass_code (c : errclass) : N :=
@@ -28,7 +29,7 @@ Definition errclass_code (c : errclass) : N :=
   | EParse => 1 | EUsage => 2 | EChain => 3 | ETrust => 4 | ESigQuote => 5
   | ESigQe => 6 | EHashBind => 7 | EFetch => 8 | ECollAuth => 9 | ECollContent => 10
   | ETcb => 11 | EQe => 12 | ERevoked => 13 | EExpired => 14 | EPolicy => 15
-  | EOption => 16 | EDevice => 17 | EPckExt => 18 | EOther => 19
+  | EOption => 16 | EDevice => 17 | EPckExt => 18 | EOther => 19 | EReplay => 20
   end%N.
 
 Inductive res (A : Type) :=
